@@ -32,8 +32,11 @@ def gen(ctx, keys=False):
         main = "".join(blocks)
         main += "13%02x" % (len(main) // 2 + 2)               # JR back to MAIN
         hbody = ["00"]
-        if rng.random() < 0.6:
+        ack = rng.random()
+        if ack < 0.5:
             hbody.append("ccfc00")                               # acknowledge: clear ISR
+        elif ack < 0.62:
+            hbody.append("ccfc02")                               # acknowledge the main timer only: the sub-timer bit stays (or becomes) pending
         if rng.random() < 0.15:
             hbody.append("ccfb%02x" % rng.choice([0x80, 0x83, 0x8F]))   # handler re-enables interrupts itself
         if rng.random() < 0.3:
@@ -79,6 +82,15 @@ def gen(ctx, keys=False):
             main = "".join(mixed + rest)
             main += "13%02x" % (len(main) // 2 + 2)
             nsteps = max(nsteps, 2 * len(lcd) + 8)
+        if rng.random() < 0.05:
+            # both timers expire on the same cycle (equal long periods, so nothing else arms a request afterwards); the handler
+            # acknowledges the main timer only, so the sub-timer request is left over when it returns
+            p = rng.choice([20, 24, 30])
+            main = "00" * rng.randint(3, 8)
+            main += "13%02x" % (len(main) // 2 + 2)
+            handler = "00" + "ccfc02" + "00" * rng.randint(0, 2) + "01"
+            cases.append((rng.choice([0x83, 0x8B, 0x8F]), 1, p, p, main, handler, p + 18, "-"))
+            continue
         if rng.random() < 0.08:
             # a request that arrives inside a handler while its source is masked, and is unmasked by the main program later:
             # one main-timer delivery (long period), the ON key pressed around it, the key source enabled only near the loop's end
@@ -209,6 +221,18 @@ def oracle(ctx, core, case, ans):
                 masked_since.pop("ready")
         else:
             masked_since.pop("ready", None)
+        # the Rust runtime arms a pending request from the live status register at the start of every step: there ANY status bit
+        # that is pending and enabled (not only one that became pending since the last delivery) must be taken promptly
+        if core == "rs":
+            lvl = (o["imr"] & 0x80) and (o["imr"] & o["isr"] & 0x0F) and not o["inirq"] and not o["halted"]
+            if lvl and not delivered:
+                masked_since.setdefault("level", k)
+                if k - masked_since["level"] >= 4:
+                    srcs = "+".join(nm for b, nm in ((1, "MTI"), (2, "STI"), (4, "KEY"), (8, "ONK")) if o["imr"] & o["isr"] & b)
+                    ctx.report([core, "enabled_pending_status_bit_not_taken", srcs], f"steps {masked_since['level']}..{k}: IMR {o['imr']:#04x} ISR {o['isr']:#04x}, not in a handler, and no interrupt", cx)
+                    masked_since.pop("level")
+            else:
+                masked_since.pop("level", None)
         prev = o
 
 
